@@ -2,7 +2,7 @@ CONSTANT Mode = "rows"
 CONSTANT MaxSteps = 4
 CONSTANT MaxZero = 0
 CONSTANT RowCounts = {2, 3, 4, 5}
-CONSTANT NGen = 16
+CONSTANT NGen = 10
 SPECIFICATION Spec
 INVARIANT TypeOK
 INVARIANT Consistent
